@@ -14,7 +14,8 @@ pub fn comp_lattice(lo: f64, hi: f64, hue: bool) -> Vec<f64> {
         return vec![lo];
     }
     let t = T_REL * (hi - lo);
-    let mut v = vec![lo, hi, lo + t, hi - t, (lo + hi) / 2.0, lo + 0.25 * (hi - lo)];
+    // t itself can round below the billionth in f32: 2t and 64t stay inside the precondition after rounding
+    let mut v = vec![lo, hi, lo + t, hi - t, lo + 2.0 * t, hi - 2.0 * t, lo + 64.0 * t, (lo + hi) / 2.0, lo + 0.25 * (hi - lo)];
     if lo < 0.0 && hi > 0.0 {
         v.extend([0.0, t, -t]);
     }
